@@ -1,11 +1,17 @@
-//! Structural generators (see DESIGN.md section 4, "G").
+//! Structural generators (DESIGN.md section 4, "G"): complete products of small feature alphabets.
+
+use crate::engine::DetRng;
+use crate::oracle::model::*;
+use crate::oracle::sha256::sha256;
+use elements::secp256k1_zkp as zkp;
+use std::sync::OnceLock;
 
 /// Fixed menu of 32-byte payload patterns (the only non-enumerable dimension of the generators).
 pub fn pat32(i: usize) -> [u8; 32] {
     let mut a = [0u8; 32];
     match i % 8 {
-        0 => {}
-        1 => a = [0xff; 32],
+        0 => a = sha256(b"verif-pattern-0"),
+        1 => a = sha256(b"verif-pattern-1"),
         2 => a[0] = 1,
         3 => a[31] = 1,
         4 => {
@@ -18,8 +24,533 @@ pub fn pat32(i: usize) -> [u8; 32] {
                 *x = if j >= 28 { 0 } else { (j * 11 + 5) as u8 };
             }
         }
-        6 => a = crate::oracle::sha256::sha256(b"verif-pattern-6"),
-        _ => a = crate::oracle::sha256::sha256(b"verif-pattern-7"),
+        6 => a = [0xff; 32],
+        _ => {}
     }
     a
+}
+
+/// Valid curve points and proofs, computed once, deterministically.
+pub struct Fixtures {
+    /// blinded asset generators, [parity 0x0a, parity 0x0b] x 2
+    pub gens: Vec<[u8; 33]>,
+    /// value commitments [0x08, 0x09] x 2
+    pub comms: Vec<[u8; 33]>,
+    /// public keys [0x02, 0x03] x 2
+    pub pks: Vec<[u8; 33]>,
+    /// range proofs: small, medium(ish)
+    pub rps: Vec<Vec<u8>>,
+    /// surjection proofs: 1-input, 3-input
+    pub sps: Vec<Vec<u8>>,
+}
+
+pub fn secp() -> &'static zkp::Secp256k1<zkp::All> {
+    static S: OnceLock<zkp::Secp256k1<zkp::All>> = OnceLock::new();
+    S.get_or_init(zkp::Secp256k1::new)
+}
+
+pub fn sk(i: u64) -> zkp::SecretKey {
+    let mut n = 0u64;
+    loop {
+        let mut m = Vec::new();
+        m.extend_from_slice(b"verif-sk");
+        m.extend_from_slice(&i.to_le_bytes());
+        m.extend_from_slice(&n.to_le_bytes());
+        if let Ok(k) = zkp::SecretKey::from_slice(&sha256(&m)) {
+            return k;
+        }
+        n += 1;
+    }
+}
+
+pub fn tweak(i: u64) -> zkp::Tweak {
+    let mut n = 0u64;
+    loop {
+        let mut m = Vec::new();
+        m.extend_from_slice(b"verif-tweak");
+        m.extend_from_slice(&i.to_le_bytes());
+        m.extend_from_slice(&n.to_le_bytes());
+        if let Ok(k) = zkp::Tweak::from_inner(sha256(&m)) {
+            return k;
+        }
+        n += 1;
+    }
+}
+
+pub fn fixtures() -> &'static Fixtures {
+    static F: OnceLock<Fixtures> = OnceLock::new();
+    F.get_or_init(|| {
+        let s = secp();
+        let mut gens: Vec<[u8; 33]> = Vec::new();
+        let mut comms: Vec<[u8; 33]> = Vec::new();
+        let mut pks: Vec<[u8; 33]> = Vec::new();
+        // two of each parity prefix, in prefix order (even, odd, even, odd)
+        let mut want = |v: &mut Vec<[u8; 33]>, f: &dyn Fn(u64) -> [u8; 33], lo: u8| {
+            let mut per = [0usize; 2];
+            let mut i = 0u64;
+            let mut found: Vec<(u8, [u8; 33])> = Vec::new();
+            while per[0] < 2 || per[1] < 2 {
+                let p = f(i);
+                let par = (p[0] - lo) as usize;
+                if per[par] < 2 {
+                    per[par] += 1;
+                    found.push((p[0], p));
+                }
+                i += 1;
+            }
+            found.sort_by_key(|x| x.0);
+            // interleave: even, odd, even, odd
+            v.push(found[0].1);
+            v.push(found[2].1);
+            v.push(found[1].1);
+            v.push(found[3].1);
+        };
+        want(
+            &mut gens,
+            &|i| {
+                let tag = zkp::Tag::from(pat32((i % 3) as usize));
+                zkp::Generator::new_blinded(s, tag, tweak(100 + i)).serialize()
+            },
+            0x0a,
+        );
+        want(
+            &mut comms,
+            &|i| {
+                let tag = zkp::Tag::from(pat32(0));
+                let g = zkp::Generator::new_blinded(s, tag, tweak(200));
+                zkp::PedersenCommitment::new(s, 1000 + i, tweak(300 + i), g).serialize()
+            },
+            0x08,
+        );
+        want(&mut pks, &|i| zkp::PublicKey::from_secret_key(s, &sk(400 + i)).serialize(), 0x02);
+
+        // range proofs of two sizes
+        let tag = zkp::Tag::from(pat32(0));
+        let abf = tweak(500);
+        let g = zkp::Generator::new_blinded(s, tag, abf);
+        let mut rps = Vec::new();
+        for (value, min_bits, exp) in [(5u64, 3u8, 0i32), (123_456u64, 36, 0)] {
+            let vbf = tweak(501 + value);
+            let c = zkp::PedersenCommitment::new(s, value, vbf, g);
+            let rp = zkp::RangeProof::new(s, 1, c, value, vbf, b"msg", b"\x51", sk(502), exp, min_bits, g)
+                .expect("fixture rangeproof");
+            rps.push(rp.serialize());
+        }
+        // surjection proofs with 1 and 3 inputs
+        let mut sps = Vec::new();
+        for n in [1usize, 3] {
+            let mut rng = DetRng::new(0, 7, n as u64);
+            let domain: Vec<(zkp::Generator, zkp::Tag, zkp::Tweak)> = (0..n)
+                .map(|j| {
+                    let t = zkp::Tag::from(pat32(j));
+                    let bf = tweak(600 + j as u64);
+                    (zkp::Generator::new_blinded(s, t, bf), t, bf)
+                })
+                .collect();
+            let sp = zkp::SurjectionProof::new(s, &mut rng, zkp::Tag::from(pat32(0)), tweak(700), &domain)
+                .expect("fixture surjection proof");
+            sps.push(sp.serialize());
+        }
+        Fixtures { gens, comms, pks, rps, sps }
+    })
+}
+
+// ------------------------------------------------------------------------------------------------
+// confidential fields
+
+pub fn assets() -> Vec<RAsset> {
+    let f = fixtures();
+    let mut v = vec![RAsset::Null, RAsset::Explicit(pat32(0)), RAsset::Explicit(pat32(2))];
+    for g in &f.gens {
+        v.push(RAsset::Conf(*g));
+    }
+    v
+}
+pub fn values() -> Vec<RValue> {
+    let f = fixtures();
+    let mut v = vec![RValue::Null, RValue::Explicit(0), RValue::Explicit(0x0102030405060708), RValue::Explicit(u64::MAX)];
+    for g in &f.comms {
+        v.push(RValue::Conf(*g));
+    }
+    v
+}
+pub fn nonces() -> Vec<RNonce> {
+    let f = fixtures();
+    let mut v = vec![RNonce::Null, RNonce::Explicit(pat32(1)), RNonce::Explicit(pat32(7))];
+    for g in &f.pks {
+        v.push(RNonce::Conf(*g));
+    }
+    v
+}
+/// reduced menus: one representative per kind
+pub fn assets_small() -> Vec<RAsset> {
+    let f = fixtures();
+    vec![RAsset::Null, RAsset::Explicit(pat32(0)), RAsset::Conf(f.gens[0])]
+}
+pub fn values_small() -> Vec<RValue> {
+    let f = fixtures();
+    vec![RValue::Null, RValue::Explicit(0x0102030405060708), RValue::Conf(f.comms[1])]
+}
+pub fn nonces_small() -> Vec<RNonce> {
+    let f = fixtures();
+    vec![RNonce::Null, RNonce::Explicit(pat32(1)), RNonce::Conf(f.pks[0])]
+}
+
+pub fn blob(len: usize, salt: u8) -> Vec<u8> {
+    (0..len).map(|i| ((i as u32).wrapping_mul(31).wrapping_add(salt as u32 * 17 + 1) & 0xff) as u8).collect()
+}
+
+/// script representatives: empty, p2wpkh, OP_RETURN, 252- and 253-byte (varint boundary)
+pub fn scripts() -> Vec<Vec<u8>> {
+    let mut p2wpkh = vec![0x00, 0x14];
+    p2wpkh.extend_from_slice(&pat32(4)[..20]);
+    vec![vec![], p2wpkh, vec![0x6a], blob(252, 1), blob(253, 2)]
+}
+
+// ------------------------------------------------------------------------------------------------
+// inputs
+
+#[derive(Clone, Copy, Debug, PartialEq, Eq)]
+pub enum InKind {
+    Coinbase,
+    Plain,
+    Pegin,
+    Issuance,
+    Reissuance,
+    PeginIssuance,
+}
+pub const IN_KINDS: [InKind; 6] =
+    [InKind::Coinbase, InKind::Plain, InKind::Pegin, InKind::Issuance, InKind::Reissuance, InKind::PeginIssuance];
+
+pub fn issuance_amount_pairs() -> Vec<(RValue, RValue)> {
+    let v = values_small();
+    let mut out = Vec::new();
+    for a in &v {
+        for k in &v {
+            if *a == RValue::Null && *k == RValue::Null {
+                continue;
+            }
+            out.push((a.clone(), k.clone()));
+        }
+    }
+    out
+}
+
+pub fn mk_txin(kind: InKind, vout: u32, script_len: usize, sequence: u32, amounts: &(RValue, RValue), txid_pat: usize) -> RTxIn {
+    let (txid, vout) = match kind {
+        InKind::Coinbase => ([0u8; 32], 0xffff_ffff),
+        _ => (pat32(txid_pat), vout),
+    };
+    let is_pegin = matches!(kind, InKind::Pegin | InKind::PeginIssuance);
+    let issuance = match kind {
+        InKind::Issuance | InKind::PeginIssuance => {
+            Some(RIssuance { nonce: [0u8; 32], entropy: pat32(5), amount: amounts.0.clone(), keys: amounts.1.clone() })
+        }
+        InKind::Reissuance => Some(RIssuance {
+            nonce: *tweak(800).as_ref(),
+            entropy: pat32(1),
+            amount: amounts.0.clone(),
+            keys: amounts.1.clone(),
+        }),
+        _ => None,
+    };
+    RTxIn { txid, vout, is_pegin, script_sig: blob(script_len, 3), sequence, issuance, wit: RInWit::default() }
+}
+
+/// the complete product of the TxIn alphabet (without witnesses)
+pub fn txins() -> Vec<RTxIn> {
+    let mut out = Vec::new();
+    let iss = issuance_amount_pairs();
+    for kind in IN_KINDS {
+        for vout in [0u32, 1, (1 << 30) - 1] {
+            if kind == InKind::Coinbase && vout != 0 {
+                continue;
+            }
+            // index 2^30-1 with both flag bits is the wire value 0xffffffff, which *is* the null
+            // outpoint index: such a value cannot come out of the decoder (outside C01's domain)
+            let vout = if kind == InKind::PeginIssuance && vout == (1 << 30) - 1 { (1 << 30) - 2 } else { vout };
+            for sl in [0usize, 1, 252, 253] {
+                for seq in [0u32, u32::MAX, u32::MAX - 1] {
+                    let has_iss = matches!(kind, InKind::Issuance | InKind::Reissuance | InKind::PeginIssuance);
+                    if has_iss {
+                        for am in &iss {
+                            out.push(mk_txin(kind, vout, sl, seq, am, 0));
+                        }
+                    } else {
+                        out.push(mk_txin(kind, vout, sl, seq, &(RValue::Null, RValue::Null), 0));
+                    }
+                }
+            }
+        }
+    }
+    out
+}
+
+/// one representative input per kind (issuances: explicit amount + explicit keys)
+pub fn txin_rep(kind: InKind, idx: usize) -> RTxIn {
+    let am = (RValue::Explicit(1000 + idx as u64), RValue::Explicit(7));
+    mk_txin(kind, idx as u32, [0usize, 1, 25][idx % 3], [u32::MAX, 0, u32::MAX - 1][idx % 3], &am, idx)
+}
+
+pub fn witness_items() -> Vec<Vec<Vec<u8>>> {
+    vec![vec![], vec![vec![]], vec![vec![1]], vec![blob(253, 9)], vec![vec![1], vec![], vec![2, 3]]]
+}
+
+/// all 16 presence combinations of the four input witness fields
+pub fn inwits() -> Vec<RInWit> {
+    let f = fixtures();
+    let mut out = Vec::new();
+    for m in 0..16u32 {
+        out.push(RInWit {
+            amount_rp: if m & 1 != 0 { f.rps[0].clone() } else { vec![] },
+            keys_rp: if m & 2 != 0 { f.rps[1].clone() } else { vec![] },
+            script_wit: if m & 4 != 0 { vec![vec![1], vec![], blob(253, 9)] } else { vec![] },
+            pegin_wit: if m & 8 != 0 { vec![vec![], vec![2, 3]] } else { vec![] },
+        });
+    }
+    out
+}
+
+// ------------------------------------------------------------------------------------------------
+// outputs
+
+pub fn txouts_small() -> Vec<RTxOut> {
+    let mut out = Vec::new();
+    let sc = scripts();
+    for a in assets_small() {
+        for v in values_small() {
+            for n in nonces_small() {
+                for s in [0usize, 1, 2] {
+                    out.push(RTxOut { asset: a.clone(), value: v.clone(), nonce: n.clone(), script: sc[s].clone(), surj: vec![], rp: vec![] });
+                }
+            }
+        }
+    }
+    out
+}
+
+pub fn txouts_full() -> Vec<RTxOut> {
+    let mut out = Vec::new();
+    for a in assets() {
+        for v in values() {
+            for n in nonces() {
+                for s in scripts() {
+                    out.push(RTxOut { asset: a.clone(), value: v.clone(), nonce: n.clone(), script: s, surj: vec![], rp: vec![] });
+                }
+            }
+        }
+    }
+    out
+}
+
+pub fn txout_rep(idx: usize) -> RTxOut {
+    let f = fixtures();
+    let sc = scripts();
+    match idx % 4 {
+        0 => RTxOut { asset: RAsset::Explicit(pat32(0)), value: RValue::Explicit(5000 + idx as u64), nonce: RNonce::Null, script: sc[1].clone(), surj: vec![], rp: vec![] },
+        1 => RTxOut { asset: RAsset::Conf(f.gens[1]), value: RValue::Conf(f.comms[0]), nonce: RNonce::Conf(f.pks[1]), script: sc[1].clone(), surj: vec![], rp: vec![] },
+        2 => RTxOut { asset: RAsset::Explicit(pat32(2)), value: RValue::Explicit(0), nonce: RNonce::Null, script: sc[2].clone(), surj: vec![], rp: vec![] },
+        _ => RTxOut { asset: RAsset::Explicit(pat32(0)), value: RValue::Explicit(77), nonce: RNonce::Null, script: vec![], surj: vec![], rp: vec![] },
+    }
+}
+
+// ------------------------------------------------------------------------------------------------
+// transactions
+
+pub const LOCKTIMES: [u32; 4] = [0, 499_999_999, 500_000_000, u32::MAX];
+pub const VERSIONS: [u32; 3] = [0, 2, u32::MAX];
+
+/// Transactions covering every combination of "which of the six witness fields is non-empty
+/// somewhere" (64 classes) for each (n_in, n_out) in 1..=2 x 1..=2, with the witness placed at every
+/// position; plus the degenerate counts.
+pub fn txs_witness_classes() -> Vec<RTx> {
+    let f = fixtures();
+    let mut out = Vec::new();
+    for n_in in 1..=2usize {
+        for n_out in 1..=2usize {
+            for mask in 0..64u32 {
+                for pos_in in 0..n_in {
+                    for pos_out in 0..n_out {
+                        let mut ins: Vec<RTxIn> = (0..n_in)
+                            .map(|i| txin_rep([InKind::Plain, InKind::Issuance, InKind::Pegin][(i + n_out) % 3], i))
+                            .collect();
+                        let mut outs: Vec<RTxOut> = (0..n_out).map(|i| txout_rep(i + n_in)).collect();
+                        let w = &mut ins[pos_in].wit;
+                        if mask & 1 != 0 {
+                            w.amount_rp = f.rps[0].clone();
+                        }
+                        if mask & 2 != 0 {
+                            w.keys_rp = f.rps[1].clone();
+                        }
+                        if mask & 4 != 0 {
+                            w.script_wit = vec![vec![1], vec![]];
+                        }
+                        if mask & 8 != 0 {
+                            w.pegin_wit = vec![vec![9; 3]];
+                        }
+                        if mask & 16 != 0 {
+                            outs[pos_out].surj = f.sps[0].clone();
+                        }
+                        if mask & 32 != 0 {
+                            outs[pos_out].rp = f.rps[0].clone();
+                        }
+                        out.push(RTx {
+                            version: VERSIONS[(mask as usize) % 3],
+                            lock_time: LOCKTIMES[(mask as usize / 3) % 4],
+                            ins,
+                            outs,
+                        });
+                    }
+                }
+            }
+        }
+    }
+    out
+}
+
+/// Shape product: 0..=3 inputs x 0..=3 outputs, input kinds cycled through all 6^n assignments for
+/// n<=2 (and a covering subset for 3), versions/locktimes menu.
+pub fn txs_shapes() -> Vec<RTx> {
+    let mut out = Vec::new();
+    for n_in in 0..=3usize {
+        let radices = vec![6usize; n_in];
+        crate::engine::product(&radices, |kinds| {
+            if n_in == 3 && !(kinds[0] <= kinds[1] || kinds[2] == 0) {
+                return; // covering subset for 3 inputs
+            }
+            for n_out in 0..=3usize {
+                for (vi, &version) in VERSIONS.iter().enumerate() {
+                    let lt = LOCKTIMES[(vi + n_out + n_in) % 4];
+                    let ins: Vec<RTxIn> = kinds.iter().enumerate().map(|(i, &k)| txin_rep(IN_KINDS[k], i)).collect();
+                    let outs: Vec<RTxOut> = (0..n_out).map(|i| txout_rep(i + vi)).collect();
+                    out.push(RTx { version, lock_time: lt, ins, outs });
+                }
+            }
+        });
+    }
+    out
+}
+
+/// Transactions with element counts and byte lengths on both sides of the varint boundaries.
+pub fn txs_varint_boundaries(thorough: bool) -> Vec<RTx> {
+    let mut out = Vec::new();
+    let base_in = txin_rep(InKind::Plain, 0);
+    let base_out = txout_rep(0);
+    for &n in &[252usize, 253] {
+        out.push(RTx { version: 2, lock_time: 0, ins: vec![base_in.clone(); n], outs: vec![base_out.clone()] });
+        out.push(RTx { version: 2, lock_time: 0, ins: vec![base_in.clone()], outs: vec![base_out.clone(); n] });
+    }
+    let mut lens = vec![252usize, 253, 65535, 65536];
+    if thorough {
+        lens.push(4_000_000);
+    }
+    for &l in &lens {
+        // script_sig
+        let mut i = base_in.clone();
+        i.script_sig = blob(l, 4);
+        out.push(RTx { version: 2, lock_time: 0, ins: vec![i], outs: vec![base_out.clone()] });
+        // script_pubkey
+        let mut o = base_out.clone();
+        o.script = blob(l, 5);
+        out.push(RTx { version: 2, lock_time: 0, ins: vec![base_in.clone()], outs: vec![o] });
+        // witness item length
+        let mut i = base_in.clone();
+        i.wit.script_wit = vec![blob(l, 6)];
+        out.push(RTx { version: 2, lock_time: 0, ins: vec![i], outs: vec![base_out.clone()] });
+        let mut i = txin_rep(InKind::Pegin, 0);
+        i.wit.pegin_wit = vec![vec![1], blob(l, 7)];
+        out.push(RTx { version: 2, lock_time: 0, ins: vec![i], outs: vec![base_out.clone()] });
+    }
+    // witness stack counts
+    for &n in &[252usize, 253, 1000] {
+        let mut i = base_in.clone();
+        i.wit.script_wit = vec![vec![7]; n];
+        out.push(RTx { version: 2, lock_time: 0, ins: vec![i], outs: vec![base_out.clone()] });
+    }
+    out
+}
+
+// ------------------------------------------------------------------------------------------------
+// dynafed parameters, headers, blocks
+
+pub fn full_params(thorough: bool) -> Vec<RFull> {
+    let lens: &[usize] = if thorough { &[0, 1, 75, 76, 253] } else { &[0, 1, 76, 253] };
+    let limits = [0u32, 1, u32::MAX];
+    let exts: Vec<Vec<Vec<u8>>> = vec![
+        vec![],
+        vec![vec![]],
+        vec![vec![5, 6], vec![7]],
+        vec![blob(33, 1), vec![], blob(33, 2)],
+        vec![vec![0]],
+    ];
+    let mut out = Vec::new();
+    for &a in lens {
+        for &l in &limits {
+            for &b in lens {
+                for &c in lens {
+                    for e in &exts {
+                        out.push(RFull {
+                            signblockscript: blob(a, 11),
+                            limit: l,
+                            fedpeg_program: blob(b, 12),
+                            fedpegscript: blob(c, 13),
+                            ext: e.clone(),
+                        });
+                    }
+                }
+            }
+        }
+    }
+    out
+}
+
+pub fn params_menu() -> Vec<RParams> {
+    let f1 = RFull { signblockscript: vec![0x51], limit: 2, fedpeg_program: vec![0x53], fedpegscript: vec![0x54], ext: vec![vec![5, 6], vec![7]] };
+    let f2 = RFull { signblockscript: blob(253, 1), limit: u32::MAX, fedpeg_program: vec![], fedpegscript: blob(76, 2), ext: vec![] };
+    vec![
+        RParams::Null,
+        RParams::Compact { signblockscript: vec![0x51], limit: 2, elided_root: pat32(0) },
+        RParams::Compact { signblockscript: vec![], limit: 0, elided_root: [0u8; 32] },
+        RParams::Full(f1),
+        RParams::Full(f2),
+    ]
+}
+
+pub fn headers() -> Vec<RHeader> {
+    let mut out = Vec::new();
+    let versions = [0u32, 0x2000_0000, 0x7fff_ffff];
+    let mut k = 0usize;
+    for &cl in &[0usize, 1, 253] {
+        for &sl in &[0usize, 1, 253] {
+            for &v in &versions {
+                out.push(RHeader {
+                    version: v,
+                    prev: pat32(k),
+                    merkle_root: pat32(k + 1),
+                    time: [0, 1_600_000_000, u32::MAX][k % 3],
+                    height: [0, 1, u32::MAX][(k / 3) % 3],
+                    ext: RExt::Proof { challenge: blob(cl, 21), solution: blob(sl, 22) },
+                });
+                k += 1;
+            }
+        }
+    }
+    let pm = params_menu();
+    let wits: Vec<Vec<Vec<u8>>> = vec![vec![], vec![vec![]], vec![vec![1], vec![2, 3]]];
+    for c in &pm {
+        for p in &pm {
+            for w in &wits {
+                out.push(RHeader {
+                    version: versions[k % 3],
+                    prev: pat32(k),
+                    merkle_root: pat32(k + 3),
+                    time: 1_600_000_000 + k as u32,
+                    height: k as u32,
+                    ext: RExt::Dynafed { current: c.clone(), proposed: p.clone(), witness: w.clone() },
+                });
+                k += 1;
+            }
+        }
+    }
+    out
 }
